@@ -124,6 +124,7 @@ def cmd_simfs(a):
             if plan["entry"] not in ("cli", "files"):
                 continue
             plan["faults"] = [f for f in plan["faults"] if f["kind"] in ("undecodable", "out_is_dir", "out_parent_is_file")]
+            plan["pre_same_run"] = False          # the real-file-system side runs the observed step only
             done += 1
             world = fam_fs.build_world(plan)
             root = os.path.join(scratch, "w%d" % s)
@@ -147,13 +148,15 @@ def cmd_simfs(a):
                         old = sys.stderr
                         sys.stderr = open(os.devnull, "w")
                         try:
-                            proc.nc.main(W.cli_argv(step["opts"], os.path.join(root, step["in"]), os.path.join(root, step["out"]),
+                            proc.nc.main(W.cli_argv(step["opts"], os.path.join(root, step["in"]) + step.get("in_suffix", ""),
+                                                    os.path.join(root, step["out"]) + step.get("out_suffix", ""),
                                                     os.path.join(root, step["dump"]) if step["dump"] else None))
                         finally:
                             sys.stderr.close()
                             sys.stderr = old
                     else:
-                        proc.af.anonymize_files(os.path.join(root, step["in"]), os.path.join(root, step["out"]),
+                        proc.af.anonymize_files(os.path.join(root, step["in"]) + step.get("in_suffix", ""),
+                                                os.path.join(root, step["out"]) + step.get("out_suffix", ""),
                                                 **W.api_kwargs(step["opts"], os.path.join(root, step["dump"]) if step["dump"] else None))
                 except Exception as e:
                     outcome = "raised:%s" % type(e).__name__
